@@ -269,6 +269,8 @@ impl RelationSet {
     }
 
     pub fn add(&mut self, r: Relation, pq: Option<(u64, u64)>) {
+        #[cfg(yamaquasi_verif)]
+        crate::verif_sched::relation_added(&self.n, self.fbsize, self.maxlarge, &r, &pq);
         debug_assert!(&r.x < &self.n);
         if r.cofactor == 1 {
             self.add_cycle(r);
